@@ -16,6 +16,11 @@ def main(tier, seed):
     bins = [("dev", vlib.build_harness("dev")), ("release", vlib.build_harness("release"))]
     progs = scenarios.iteration_scenarios(rng, 1500 if tier == "quick" else 25000)
     profcheck.run_scenarios(rep, "iteration", progs, bins, PROP)
+    # more than RANGE_CACHE_SIZE distinct ranges in one interpreter: every loop / slice / comparison must still see the bounds written
+    # (the range cache and its replacement discipline are part of Machine.tla)
+    profcheck.run_scenarios(rep, "rangecache", scenarios.range_cache_scenarios(), bins, PROP)
+    # break / continue / return leave no iteration state behind, also when the pass's variables were captured by closures that live on
+    profcheck.run_scenarios(rep, "loopstate", scenarios.loop_state_scenarios(), bins, PROP)
     # strings are iterable too: one character per step, for every string of <= 3 characters over an alphabet with 1-, 2-, 3- (lead
     # bytes E0 and E2) and 4-byte characters (Strings.tla), through a for loop, through the adapters and through manual next()
     from checks import c13
